@@ -13,6 +13,8 @@ CLAIMED = {
  'C09': ('model_checking', 'symbolic execution of every reduction kernel: integer sums/extrema vs modular sum and per-lane bound + attained obligations; FP sums and haddp in token abstraction (each lane exactly once); generic reduce with an external AC function', '5 C09', 'IR symbolic execution + SMT; token abstraction for FP sums'),
  'C13': ('model_checking', 'spec-free 2-safety query on every element-wise kernel body: lane k of two executions agreeing on lane k only is equal; broadcast gives equal lanes; obtained by substitution in the result term of the real code', '5 C13', 'self-composition (non-interference) over symbolically executed IR + SMT'),
  'C04': ('model_checking', 'symbolic pointer + symbolic memory: value map lane i <-> element i, access-footprint obligations over the executor\'s access log (every access inside [p, p+size*sizeof(T)), every byte covered, nothing around the object modified), alignment attribute of each access implied by the entry point\'s contract, gather/scatter address sets with symbolic index batches', '5 C04', 'IR symbolic execution with symbolic memory + SMT; access-log footprint/alignment obligations'),
+ 'C15': ('model_checking', 'the real supported_arch constructor and dispatcher executed symbolically with CPUID/XGETBV results as symbolic registers; availability implications, completeness, monotonicity and the dispatch call trace decided for all register values', '5 C15', 'IR symbolic execution with symbolic CPUID/XCR0 registers + SMT; call-trace obligations'),
+ 'C18': ('model_checking', 'allocate/deallocate executed symbolically with posix_memalign/free as contract stubs and symbolic n; block size compared in 128-bit arithmetic; is_aligned and get_alignment_offset for all pointers/sizes/blocks', '5 C18', 'IR symbolic execution with nondeterministic allocator stub + SMT'),
 }
 NA = {
  'C10': 'no SMT theory contains exp/log/sin/erf/gamma: an ulp bound against the real-valued function cannot be expressed as a solver query over the code (DESIGN.md section 6); exhausting 2^32 inputs would be enumeration, a different technique',
